@@ -815,6 +815,24 @@ func c06DoorkeeperAfterChurn(r *Run, idx int) {
 		return
 	}
 	defer a.closeAPI()
+	// keys that are resident before the churn (offered until stored, then read a few times): an update of a
+	// resident key is never a first sighting, whatever the filters have forgotten since
+	var pinned []int
+	for j := 0; j < 40; j++ {
+		k := 7_000_000 + idx*1000 + j
+		for try := 0; try < 3; try++ {
+			if a.set(k, int64(k), 1, 0) {
+				pinned = append(pinned, k)
+				break
+			}
+		}
+	}
+	a.wait()
+	for rep := 0; rep < 4; rep++ {
+		for _, k := range pinned {
+			_, _, _ = a.get(context.Background(), k)
+		}
+	}
 	churn := 20000 + rng.Intn(30000)
 	firstTimeAdmitted := 0
 	for i := 0; i < churn; i++ {
@@ -823,6 +841,25 @@ func c06DoorkeeperAfterChurn(r *Run, idx int) {
 		}
 	}
 	a.wait()
+	updated := 0
+	for _, k := range pinned {
+		if !a.store().VerifResident(k) {
+			continue
+		}
+		nv := int64(k) + 1
+		if !a.set(k, nv, 1, 0) {
+			r.Violate("set-false-for-a-resident-key/doorkeeper/after-one-off-churn/"+kind, fmt.Sprintf("round %d (%s, MaxSize %d, doorkeeper on): key %d was resident; after %d other keys had been offered once each, Set(%d, new value, cost 1) returned false", idx, kind, maxSize, k, churn, k),
+				map[string]any{"round": idx, "cache": kind, "maxsize": maxSize, "one_off_keys": churn})
+			break
+		}
+		if v, ok, _ := a.get(context.Background(), k); !ok || v != nv {
+			r.Violate("set-true-not-readable/doorkeeper/resident-key/after-one-off-churn/"+kind, fmt.Sprintf("round %d (%s, MaxSize %d, doorkeeper on): update of resident key %d returned true, the Get right after returned (%d,%v), want %d", idx, kind, maxSize, k, v, ok, nv),
+				map[string]any{"round": idx, "cache": kind, "maxsize": maxSize})
+			break
+		}
+		updated++
+	}
+	r.Count("doorkeeper_resident_keys_updated_after_churn", int64(updated))
 	refused := 0
 	for j := 0; j < 300; j++ {
 		k := 5_000_000 + idx*1000 + j
